@@ -170,3 +170,30 @@ Fixpoint log_check (systems : list sys) (started : list N) (m : mstate) (log : l
   end.
 
 Definition log_ok (systems : list sys) (log : list Z) : Z := log_check systems [] m_init log.
+
+(* ------------------------------------------------------------------ a probe output, on its own:
+   the flags seen while the handle is alive are exclusive exactly on its
+   declared writes, shared exactly on its declared reads that are not writes,
+   free elsewhere.   6 h nr r.. nw w.. (res state).. *)
+Fixpoint pairs_ok (r w : list Z) (l : list Z) : bool :=
+  match l with
+  | res :: st :: l' =>
+      let want := if existsb (Z.eqb res) w then 2%Z else if existsb (Z.eqb res) r then 1%Z else 0%Z in
+      Z.eqb st want && pairs_ok r w l'
+  | [] => true
+  | _ => false
+  end.
+
+Definition probe_consistent (o : list Z) : bool :=
+  match o with
+  | 6%Z :: _ :: nr :: rest =>
+      match dtake (Z.to_nat nr) rest with
+      | Some (r, nw :: rest2) =>
+          match dtake (Z.to_nat nw) rest2 with
+          | Some (w, pairs) => negb (is_nil pairs) && pairs_ok r w pairs
+          | None => false
+          end
+      | _ => false
+      end
+  | _ => false
+  end.
